@@ -38,6 +38,50 @@ class Box:
     pass
 
 
+class Toucher(Asset):
+    """A user asset whose initialisation uses the resource manager (declares a pool and takes one unit of it)."""
+
+    def initialize(self, env):
+        super().initialize(env)
+        rm = env.resource_manager
+        rm.add_resources('tool', 2)
+        self.res = rm.reserve_resources({'tool': 1})
+
+
+def _small_run(system, index, horizon):
+    s_ = Source('S', PartGenerator('p', 1.0), 1)
+    Sink('K', [s_])
+    system.simulate(horizon, print_summary=False)
+
+
+def check_after_multiple_times(case):
+    """simulate_multiple_times in the calling process creates one System per run: afterwards the LAST of them is the most
+    recently created system - new assets register with it, it may continue, the earlier ones may not."""
+    res = System.simulate_multiple_times(_small_run, 2, 0, 2)
+    last = res[-1]
+    late = PartHandler('after-the-runs')
+    if not any(a is late for a in last._assets):
+        where = [i for i, s_ in enumerate(res) if any(a is late for a in s_._assets)]
+        raise Violation('C20.registered-latest', f'an asset created after simulate_multiple_times(.., 2, 0) returned is not '
+                        f'registered with the most recently created system (the last one returned); found in returned systems '
+                        f'{where}')
+    try:
+        last.simulate(1, print_summary=False)
+    except RuntimeError as e:
+        raise Violation('C20.latest-system', f'the most recently created system (last one returned by '
+                        f'simulate_multiple_times) is refused by simulate(): {e}')
+    if late.env is not last.env:
+        raise Violation('C20.init-immediately', 'an asset created after the runs of simulate_multiple_times was not '
+                        'initialised with the latest system')
+    try:
+        res[0].simulate(1, print_summary=False)
+    except RuntimeError:
+        pass
+    else:
+        raise Violation('C20.older-system', 'a system replaced by a later run of simulate_multiple_times was allowed to '
+                        'simulate')
+
+
 class PlantSystem(System):
     """A user's own subclass of System (the latest system may be one)."""
 
@@ -78,6 +122,8 @@ def build(kit):
     if kit.get('off'):
         o['K'].offset_next_cycle_time(kit['off'])
     o['E'] = PartHandler('', None, 0)       # an empty string is a name like any other
+    if kit.get('toucher'):
+        o['R'] = Toucher('R')
     o['M'] = Maintainer('M', capacity=1, value=10)
     box = Box()
     box.log = []
@@ -341,6 +387,9 @@ def run_attach(case, late):
 def run(case):
     with installed(Weights(*case['tb'])):
         check_creation_during_initialisation(case)
+    if case.get('multi'):
+        with installed(Weights(*case['tb'])):
+            check_after_multiple_times(case)
     if case.get('attach'):
         with installed(Weights(*case['tb'])):
             A = run_attach(case, True)
